@@ -368,6 +368,9 @@ func (c *conv) expr(e ast.Expr) *N {
 	case *ast.KeyValueExpr:
 		return nd("kv", c.expr(x.Key), c.expr(x.Value))
 	case *ast.CompositeLit:
+		if _, ok := x.Type.(*ast.MapType); ok && len(x.Elts) == 0 {
+			return nd("call", leaf("id:make"), c.typ(x.Type))
+		}
 		n := nd("lit", c.typ(x.Type))
 		n.K = append(n.K, c.exprs(x.Elts)...)
 		return n
@@ -718,64 +721,145 @@ func mkIf(cond *N, then, els []*N, tail string) []*N {
 
 func (c *conv) block(list []ast.Stmt, tail string) []*N {
 	var out []*N
-	for i, s := range list {
-		last := i == len(list)-1
-		t := "none"
-		if last {
-			t = tail
-		}
-		rest := func() []*N { return c.block(list[i+1:], tail) }
+	for _, s := range list {
 		switch x := s.(type) {
 		case *ast.IfStmt:
 			if x.Init != nil {
-				out = append(out, c.stmt(x.Init, "none")...)
+				out = append(out, c.hoisted(c.stmt(x.Init, "none"))...)
 			}
-			cond := c.expr(x.Cond)
-			// branches are in tail position only if nothing follows the if
-			then := c.block(x.Body.List, t)
+			cond, pre := c.hoistCalls(c.expr(x.Cond))
+			out = append(out, pre...)
+			then := c.block(x.Body.List, "none")
 			var els []*N
 			if x.Else != nil {
-				switch e := x.Else.(type) {
-				case *ast.BlockStmt:
-					els = c.block(e.List, t)
-				default:
-					els = c.block([]ast.Stmt{e}, t)
+				if b, ok := x.Else.(*ast.BlockStmt); ok {
+					els = c.block(b.List, "none")
+				} else {
+					els = c.block([]ast.Stmt{x.Else}, "none")
 				}
 			}
-			if !last {
-				switch {
-				case terminates(then):
-					// guard clause: the rest of the block is the else branch
-					then = c.block(x.Body.List, tail)
-					els = append(c.elseList(x, tail), rest()...)
-					return append(out, mkIf(cond, then, els, tail)...)
-				case len(els) > 0 && terminates(els):
-					els = c.elseList(x, tail)
-					then = append(c.block(x.Body.List, "none"), rest()...)
-					return append(out, mkIf(cond, then, els, tail)...)
-				}
-			}
-			out = append(out, mkIf(cond, then, els, t)...)
+			out = append(out, mkIf(cond, then, els, "none")...)
 		case *ast.SwitchStmt:
 			if x.Init != nil {
-				out = append(out, c.stmt(x.Init, "none")...)
+				out = append(out, c.hoisted(c.stmt(x.Init, "none"))...)
 			}
-			out = append(out, c.switchStmt(x, t)...)
+			out = append(out, c.switchStmt(x, "none")...)
 		default:
-			out = append(out, c.stmt(s, t)...)
+			out = append(out, c.hoisted(c.stmt(s, "none"))...)
 		}
 	}
-	return stripTail(out, tail)
+	return retail(absorb(out), tail)
 }
 
-func (c *conv) elseList(x *ast.IfStmt, tail string) []*N {
-	if x.Else == nil {
-		return nil
+// absorb: guard clauses.  When one branch of an `if` always leaves and something follows the `if`, what follows
+// belongs to the other branch.
+func absorb(list []*N) []*N {
+	for i, n := range list {
+		if n.Op != "if" || i == len(list)-1 {
+			continue
+		}
+		rest := list[i+1:]
+		then := n.K[1].K
+		var els []*N
+		if len(n.K) == 3 {
+			els = n.K[2].K
+		}
+		switch {
+		case terminates(then) && !terminates(els):
+			els = absorb(append(append([]*N{}, els...), rest...))
+		case len(els) > 0 && terminates(els) && !terminates(then):
+			then = absorb(append(append([]*N{}, then...), rest...))
+		default:
+			continue
+		}
+		return append(append([]*N{}, list[:i]...), mkIf(n.K[0], then, els, "none")...)
 	}
-	if b, ok := x.Else.(*ast.BlockStmt); ok {
-		return c.block(b.List, "none")
+	return list
+}
+
+// retail: a list in tail position of a loop body (or of a function without results) loses its trailing `continue`
+// (bare `return`), recursively through the branches of a final `if`.
+func retail(list []*N, tail string) []*N {
+	if tail != "loop" && tail != "funcvoid" {
+		return list
 	}
-	return c.block([]ast.Stmt{x.Else}, "none")
+	list = stripTail(list, tail)
+	if len(list) == 0 {
+		return list
+	}
+	last := list[len(list)-1]
+	if last.Op == "if" {
+		then := retail(last.K[1].K, tail)
+		var els []*N
+		if len(last.K) == 3 {
+			els = retail(last.K[2].K, tail)
+		}
+		list = append(append([]*N{}, list[:len(list)-1]...), mkIf(last.K[0], then, els, "none")...)
+	}
+	return list
+}
+
+// hoisted: private value helpers called inside the statements are followed one level: their straight-line body is put
+// in front of the statement and the call replaced by the returned expression.
+func (c *conv) hoisted(stmts []*N) []*N {
+	if !c.follow {
+		return stmts
+	}
+	var out []*N
+	for _, s := range stmts {
+		switch s.Op {
+		case "return", "expr", "assign", "define", "opassign":
+			n, pre := c.hoistCalls(s)
+			out = append(append(out, pre...), n)
+		default:
+			out = append(out, s)
+		}
+	}
+	return out
+}
+
+func (c *conv) hoistCalls(n *N) (*N, []*N) {
+	if !c.follow {
+		return n, nil
+	}
+	// only when nothing else in the statement has an effect that the hoisting could overtake
+	calls := 0
+	walk(n, func(x *N) {
+		if strings.HasPrefix(x.Op, "call") {
+			calls++
+		}
+	})
+	if calls != 1 {
+		return n, nil
+	}
+	var pre []*N
+	done := false
+	var rew func(x *N) *N
+	rew = func(x *N) *N {
+		if !done && x.Op == "call" && x.K[0].isID() {
+			if h, ok := c.nm.helpers[x.K[0].id()]; ok && h.Type.Results != nil && len(h.Type.Results.List) == 1 && len(h.Type.Results.List[0].Names) <= 1 {
+				if b, ok := c.nm.helperBody(h, x.K[1:]); ok && len(b.K) > 0 {
+					last := b.K[len(b.K)-1]
+					head := nd("block", b.K[:len(b.K)-1]...)
+					if last.Op == "return" && len(last.K) == 1 && !hasReturn(head) {
+						done = true
+						pre = head.K
+						return last.K[0]
+					}
+				}
+			}
+		}
+		if x.Op == "funclit" {
+			return x
+		}
+		out := &N{Op: x.Op}
+		for _, k := range x.K {
+			out.K = append(out.K, rew(k))
+		}
+		return out
+	}
+	r := rew(n)
+	return r, pre
 }
 
 // switchStmt: an if / else-if chain; `break` inside a case leaves the switch and `fallthrough` is not translated,
@@ -1126,6 +1210,10 @@ func inlineLocals(body *N) *N {
 					ok = false
 				}
 			})
+			// a plain alias `x := y` of a variable that is only written through (map / slice / pointer) before the alias
+			if !ok && e.isID() && e.id() != name && defCount[e.id()] == 1 && aliasOK(body, x, name, e.id()) {
+				ok = true
+			}
 			if ok {
 				target, value = name, e
 			}
@@ -1150,6 +1238,77 @@ func inlineLocals(body *N) *N {
 		body = rew(body)
 	}
 	return body
+}
+
+// aliasOK: after the definition `x := y` (node def) neither variable is written, directly or through, and if the
+// definition sits in a loop neither is written anywhere in that loop.
+func aliasOK(body, def *N, x, y string) bool {
+	pos, defPos := 0, -1
+	var defLoop *N
+	type w struct {
+		pos  int
+		loop []*N
+	}
+	var writes []w
+	var loops []*N
+	var visit func(n *N)
+	visit = func(n *N) {
+		pos++
+		if n == def {
+			defPos = pos
+			if len(loops) > 0 {
+				defLoop = loops[len(loops)-1]
+			}
+		}
+		isLoop := n.Op == "for" || n.Op == "range" || n.Op == "range="
+		if isLoop {
+			loops = append(loops, n)
+		}
+		switch n.Op {
+		case "assign", "opassign":
+			for _, l := range n.K[0].K {
+				if b := baseID(l); b == x || b == y {
+					writes = append(writes, w{pos, append([]*N{}, loops...)})
+				}
+			}
+		case "incdec":
+			if b := baseID(n.K[1]); b == x || b == y {
+				writes = append(writes, w{pos, append([]*N{}, loops...)})
+			}
+		case "un:&":
+			if b := baseID(n.K[0]); b == x || b == y {
+				writes = append(writes, w{pos, append([]*N{}, loops...)})
+			}
+		case "define", "var":
+			for _, l := range n.K[0].K {
+				if l.isID() && l.id() == y && n != def {
+					// y's own definition is not a write after the alias as long as it precedes it (checked by position)
+					writes = append(writes, w{pos, append([]*N{}, loops...)})
+				}
+			}
+		}
+		for _, k := range n.K {
+			visit(k)
+		}
+		if isLoop {
+			loops = loops[:len(loops)-1]
+		}
+	}
+	visit(body)
+	if defPos < 0 {
+		return false
+	}
+	for _, wr := range writes {
+		if wr.pos > defPos {
+			return false
+		}
+		for _, l := range wr.loop {
+			if l == defLoop && defLoop != nil {
+				return false
+			}
+		}
+	}
+	return true
 }
 
 // dropUnusedDefs: a definition none of whose variables is ever read becomes an expression statement (or vanishes).
